@@ -113,7 +113,7 @@ fn gen(rng: &mut Rng, _sub: u64) -> Workload {
 fn opts(rng: &mut Rng, _sub: u64) -> SimOpts {
     // fault-free configuration (handlers one at a time, I/O at once) and interleaving configuration are separate
     let interleave = rng.chance(1, 2);
-    SimOpts { io_enabled: interleave, step_cap: 30_000, max_in_flight: if interleave { 4 } else { 1 }, gate_first: !rng.chance(1, 8), observe_all: false }
+    SimOpts { io_enabled: interleave, step_cap: 30_000, max_in_flight: if interleave { 4 } else { 1 }, gate_first: !rng.chance(1, 8), observe_all: false, reference: false }
 }
 
 fn show(s: &str) -> String {
@@ -273,6 +273,7 @@ pub const DEF: PropDef = PropDef {
     probes,
     droppable,
     well_formed,
+    deviation_signature: true,
     rule: "one evaluation = one simulated run of the real ServerState: a seeded edit history (didOpen, then 3-12 notifications, each didChange with 1-3 full or ranged changes whose positions are valid UTF-16 positions of the client model, plus clearly invalid ranges) over documents whose alphabet (ASCII / 2-3-byte / astral, LF or CRLF) is chosen per run; half of the runs deliver the messages strictly one at a time with immediate I/O (fault-free configuration), half under the seeded scheduler with up to 4 handlers in flight; after every completed didChange handler and at quiescence the server's copy is compared with the UTF-16 client model; distinct+non-trivial = distinct decision traces",
     components_real: &["sway_lsp::ServerState, did_open/did_change/did_save handlers", "sway_lsp::core::document::{TextDocument, Documents}", "compile worker (running, not judged)", "tokio::fs on a 1-thread blocking pool"],
     components_stub: &["JSON-RPC transport and tower-lsp router (dispatcher model)", "LSP client", "entropy (seeded shim)", "ps (fake)"],
